@@ -227,7 +227,7 @@ class Tables:
   pass
 
 
-def compute_tables(inst, par, shares_by_geo):
+def compute_tables(inst, par, shares_by_geo, real_order=None):
   from matched_markets.methodology import tbrmmdiagnostics, tbrmmscore
   D, S = tbrmmdiagnostics.TBRMMDiagnostics, tbrmmscore.TBRMMScore
   t = Tables()
@@ -235,6 +235,10 @@ def compute_tables(inst, par, shares_by_geo):
   means = {g: float(np.mean(v)) for g, v in table.items()}
   order = sorted(table.keys(), key=lambda g: -means[g])
   t.distinct_means = len(set(means.values())) == len(means)
+  if real_order is not None and sorted(real_order) == sorted(order) and \
+      all(means[real_order[i]] >= means[real_order[i + 1]] for i in range(len(real_order) - 1)):
+    # geos with equal means may come in either order: follow the data object's (any non-increasing order is canonical)
+    order = list(real_order)
   t.order = order
   npm = int(par.n_pretest_max)
   n_window = min(len(dates), npm)
@@ -549,7 +553,7 @@ def process(job):
       rec['no_data_object'] = True      # construction of the data object was rejected
       return rec
     par = build_params(inst, resolved)
-    t = compute_tables(inst, par, shares)
+    t = compute_tables(inst, par, shares, real_order=rec['exh'].get('df_order') or rec['greedy'].get('df_order'))
     rec['tables'] = {'order': t.order, 'cls7': t.cls7, 'share': t.share, 'req': t.req, 'idx': t.idx,
                      'cls': t.cls, 'n': t.n, 'n_window': t.n_window, 'opt': t.opt, 'pair': t.pair,
                      'arr': t.arr, 'distinct_means': t.distinct_means, 'req_distinct': t.req_distinct,
@@ -1017,6 +1021,19 @@ def judge_c03(out, res):
     out.extra['feasible_total'] = out.extra.get('feasible_total', 0) + len(feas)
 
 
+def independent_impact(x, y, p):
+  """required impact recomputed from the two series and the parameters alone (numpy/scipy, not the library classes)"""
+  from scipy import stats
+  x, y = np.asarray(x, dtype=float), np.asarray(y, dtype=float)
+  n = len(y)
+  n_test = int(p['n_test'])
+  corr = float(np.corrcoef(x, y)[0, 1])
+  phi = stats.f.ppf(p.get('flevel', 0.9), 1, n - 1)
+  tq = stats.t.ppf(p.get('sig_level', 0.9), n - 2) + stats.t.ppf(p.get('power_level', 0.8), n - 2)
+  term = tq * n_test * math.sqrt(phi * (n + 1) / (n * n_test * (n - 1)) + 1 / n + 1 / n_test)
+  return corr, term * float(np.std(y, ddof=2)) * math.sqrt(max(0.0, 1 - corr ** 2))
+
+
 def judge_c04(out, res):
   for r in iter_results(res):
     t = r['tables']
@@ -1058,6 +1075,11 @@ def judge_c04(out, res):
               prob = f'last score entry {got[5]} differs from the recomputed {want[5]} (budget variant={budget_variant})'
             elif not math.isclose(d['diag_impact'], rec[0], rel_tol=1e-9):
               prob = f'required impact {d["diag_impact"]} differs from the recomputed {rec[0]}'
+            elif abs(d['diag_corr']) < 0.99999:
+              ic, ii = independent_impact(x, y, p)
+              if not (math.isclose(ic, d['diag_corr'], rel_tol=1e-9, abs_tol=1e-12) and math.isclose(ii, d['diag_impact'], rel_tol=1e-7)):
+                prob = (f'correlation / required impact held by the design ({d["diag_corr"]}, {d["diag_impact"]}) differ from the '
+                        f'values recomputed from its two series and the parameters ({ic}, {ii})')
         if prob:
           f['symptom'] = 'diagnostics-mismatch'
           out.oracle_violation(f, case_of(r, which), f'{which} design #{pos_i} T={d["Tids"]} C={d["Cids"]}: {prob}')
